@@ -132,6 +132,8 @@ out += ["", "Changes that were missed at first and what was strengthened:", "",
         "  `C13_r8m2` (`_fetch_headers` returns without clearing `vi`/`vc` when a read error hits the fetch of a link's THIRD header page during the open-time scan of a later link) - every stream the harness built had two header pages per",
         "  link, so that loop was never entered. The muxer now knows three header layouts (comment+setup on one page / one header packet per page / comment+setup over many small continued pages), C12 cycles through them, and C13 runs C12's",
         "  fault plans (a fault at every callback invocation index of an open or seek scenario) under LeakSanitizer with only the ledger gating.",
+        "  Silence on the unchanged tree: all 20 quick tiers at seeds 811 and 4242 under heavy machine load (38-70 runnable processes; no CPU-budget false alarm) before the strengthening; afterwards all 20 at seed 1 (the committed evidence)",
+        "  and the six changed checks (C02, C03, C07, C08, C12, C13) at seeds 2 and 7, C12 also at 3, 5 and 9. `tools/seedcheck.py run` now gives each run a private evidence directory (`VERIF_EVIDENCE_DIR`), so changes are checked in parallel.",
         "  `C03_r5m2` (round 5, thorough-only until now) is reported by the quick tier since C03 got a phantom-tail stratum (a link whose last page overstates its length, followed by a link that opens but cannot be decoded) and seek targets",
         "  at and around every link boundary.",
         "<!-- AUTOGEN-END -->"]
